@@ -17,7 +17,7 @@ FLOORS = {"had_failure": 0.1, "abandoned_pipeline": 0.01, "round_filled_pool": 0
 
 
 def plan(tier):
-    return [{"kind": "hypothesis", "examples": 2000 if tier == "quick" else 60000}]
+    return [{"kind": "hypothesis", "examples": 2000 if tier == "quick" else 40000}]
 
 
 def strategy(tier):
